@@ -3,7 +3,7 @@ obligations, known findings, verdict and evidence."""
 import os, sys, re, json, time, random, subprocess, hashlib, fcntl, glob
 
 VERIF = '/verif'
-REPO = '/repo'
+REPO = os.environ.get('VERIF_REPO') or '/repo'
 COQ = os.path.join(VERIF, 'coq')
 DRIVER = os.path.join(VERIF, 'ocaml', 'driver')
 FORBIDDEN = re.compile(r'\b(Admitted|admit|Axiom|Axioms|Parameter|Parameters|Conjecture|Conjectures|'
